@@ -1,5 +1,6 @@
 """C08 — JSONPath evaluation returns exactly the items the path denotes (structural clauses)."""
 import report
+from rules import numcodec
 from sym import Explorer, explore, show, subterms, lin
 from pat import called, canon, is_call, deref_all, agg_variant, const_of, strip_casts
 from pathfacts import PathFacts, IntervalSet, INF
@@ -365,4 +366,9 @@ def check(ctx, run):
     r08_7(ctx, run)
     recursion.rrec(ctx, run, 'R08.8', ROOTS[:3], {'path-expr', 'path-ast'}, 'recursion of the evaluator on the depth of the filter expression', floor=1)
     r08_9(ctx, run)
+    safety.forbidden_calls(ctx, run, 'R08.10', [SEL + 'select'], ('slice::sort', 'slice::sort_unstable', 'slice::sort_by', 'slice::sort_by_key', 'slice::sort_unstable_by', 'Vec::dedup',
+                                                              'Vec::dedup_by', 'Vec::dedup_by_key', 'slice::reverse', 'Vec::retain', 'BTreeSet::insert', 'HashSet::insert'),
+                           'the path evaluator', 'selected items must come out in the order the path lists them, repetitions included (`$[3, 0]`, `$[1, 1]`); reordering or de-duplicating positions changes the result',
+                           only=lambda p_: p_.startswith('jsonpath::selector::'))
+    numcodec.r18_4(ctx, run, rule='R08.5/R18.4')
     return report.finish(run, level='other', explanation=EXPLANATION, assumptions=["A1: the document is valid JSONB; slices of `root` are not panic obligations", "A2/A3"])
